@@ -377,3 +377,64 @@ Theorem C04_compiled_run_no_abort : forall (M : module) (o : options) (B : compi
       forall a, fst (run F bld budget (C15Link.to_vm B) s) <> OAbort a.
 Proof. exact compiled_run_no_abort. Qed.
 Print Assumptions C04_compiled_run_no_abort.
+
+(* ------------------------------------------------------------------ no hypothesis about intermediate states *)
+From Cao Require Import C04VmProofs11 C04VmChecked C04VmAgree C04VmFinal.
+
+(* The CHECKED VM (C04VmChecked.v: step_c, loop_c, run_at_c, run_c) is the VM model with runtime checks; a failed
+   check stops the run with the outcome OAbort AUnmodelled, which [run] itself never produces.  The checks:
+     chk_store    SetProperty / AppendTable do not store a table as key or value (flat tables: under this
+                  condition every reachable heap stays acyclic; storing a table into a table can build the cycle
+                  of A-37)
+     chk_foreach  ForEach in a Debug build finds a counter >= 0          (a property of compiled programs)
+     chk_reg      RegisterUpvalue of an enclosing upvalue finds it       (a property of compiled programs)
+     chk_native   CallNative is not __min / __max / __sort               (not shown to keep the heap acyclic)
+     chk_return   Return runs with at least two call frames              (with one frame the VM reports BadReturn;
+                  in a nested run the frames of run_function lie below - not formalised)
+     run_at_c 0   nesting of runs below 130 levels                       (the crate's call stack of 256 frames
+                  bounds it by 128 - not formalised)
+   The contract of the nested run, until here a hypothesis (reenter_ok), is PROVED by induction over the depth: *)
+Theorem C04_nested_run_contract : forall F bld P start,
+  code_ok P start -> native_pointers_simple P ->
+  forall d, reenter_ok P (run_at_c F bld P d) start okU.
+Proof. exact run_at_c_contract. Qed.
+Print Assumptions C04_nested_run_contract.
+
+(* the checked VM never aborts in any other way: no hypothesis about intermediate states or nested runs *)
+Theorem C04_checked_run_no_abort : forall F bld P start,
+  code_ok P start -> native_pointers_simple P ->
+  forall budget s,
+    vm_inv0 P start s -> heap_acyclic (st_heap s) -> natives_simple (st_heap s) ->
+    forall a, fst (run_c F bld P budget s) = OAbort a -> a = AUnmodelled.
+Proof. exact checked_run_no_abort. Qed.
+Print Assumptions C04_checked_run_no_abort.
+
+(* a run of the VM on which no check fails IS the checked run (natives and loops hand a stop upwards unchanged) *)
+Theorem C04_run_agrees : forall F bld P budget s,
+  fst (run_c F bld P budget s) <> OAbort AUnmodelled ->
+  run F bld budget P s = run_c F bld P budget s.
+Proof. exact run_agrees. Qed.
+Print Assumptions C04_run_agrees.
+
+Theorem C04_run_no_abort_unless_check : forall F bld P start budget s,
+  code_ok P start -> native_pointers_simple P ->
+  vm_inv0 P start s -> heap_acyclic (st_heap s) -> natives_simple (st_heap s) ->
+  fst (run_c F bld P budget s) <> OAbort AUnmodelled ->
+  run F bld budget P s = run_c F bld P budget s /\
+  forall a, fst (run F bld budget P s) <> OAbort a.
+Proof. exact run_no_abort_unless_check. Qed.
+Print Assumptions C04_run_no_abort_unless_check.
+
+(* Vm::run of a compiled program on a new Vm: the only conditions left are static ([native_pointers_simple]: no
+   NativeFunctionPointer names call1 / try1 / call0 / rb1 / __min / __max / __sort; C10's side conditions) and
+   "no check of the checked VM fails on this run" - in particular: the executed stores never put a table into a
+   table *)
+Theorem C04_run_no_abort_flat_tables : forall (M : module) (o : options) (B : compiled),
+  compile M o = COk B -> Wellformed.program_in_range M o = true -> WellformedSide.program_utf8 M o = true ->
+  (N.of_nat (length (p_bytecode B)) < 2147483648)%N -> (N.of_nat (length (Compiler.p_data B)) < 4294967296)%N ->
+  native_pointers_simple (C15Link.to_vm B) ->
+  forall F bld budget,
+    fst (run_c F bld (C15Link.to_vm B) budget fresh_state) <> OAbort AUnmodelled ->
+    forall a, fst (run F bld budget (C15Link.to_vm B) fresh_state) <> OAbort a.
+Proof. exact compiled_run_no_abort_unless_check. Qed.
+Print Assumptions C04_run_no_abort_flat_tables.
